@@ -1435,15 +1435,16 @@ func (ls *LState) NewThread() (*LState, context.CancelFunc) {
 	thread.Env = ls.Env
 	var f context.CancelFunc = nil
 	if ls.ctx != nil {
-		// the new thread lives as long as the state's context, not as long as the coroutine that happens to
-		// create it: that one's context is cancelled when it finishes
+		// the new thread lives as long as the context that was attached to its creator, not as long as the
+		// creator: a coroutine's own (derived) context is cancelled when the coroutine finishes
 		base := ls.ctx
-		if main := ls.G.MainThread; main != nil && main.ctx != nil {
-			base = main.ctx
+		if ls.ctxParent != nil {
+			base = ls.ctxParent
 		}
 		thread.mainLoop = mainLoopWithContext
 		thread.ctx, f = context.WithCancel(base)
 		thread.ctxCancelFn = f
+		thread.ctxParent = base
 	}
 	return thread, f
 }
@@ -2102,6 +2103,7 @@ func (ls *LState) SetMx(mx int) {
 func (ls *LState) SetContext(ctx context.Context) {
 	ls.mainLoop = mainLoopWithContext
 	ls.ctx = ctx
+	ls.ctxParent = nil
 }
 
 // Context returns the LState's context. To change the context, use WithContext.
@@ -2114,6 +2116,7 @@ func (ls *LState) RemoveContext() context.Context {
 	oldctx := ls.ctx
 	ls.mainLoop = mainLoop
 	ls.ctx = nil
+	ls.ctxParent = nil
 	return oldctx
 }
 
